@@ -1,14 +1,19 @@
 ------------------------------ MODULE T_Writer -------------------------------
 (* Trace validation for C11: executions of the real pyx12.x12file.X12Writer.    *)
-(* A trace: [id, hist, steps, final, same, reread, isa_ok, exc]                  *)
+(* A trace: [id, hist, steps, final, same, reread, w, src, isas, exc]            *)
 (*   hist   the abstract segments passed to Write() in order                     *)
 (*   steps  per Write(): the abstract segments that call appended to the stream  *)
 (*   final  all segments in the stream after Close()                             *)
 (*   same   every non-trailer output segment equals its input (values, order)    *)
 (*   reread <<level, code>> envelope errors of the real X12Reader on the output  *)
-(*   isa_ok every ISA written carries the writer's own delimiters                *)
+(*   w      the writer's delimiter setting [st, et, ct, rt] (code points)         *)
+(*   src    the delimiters [seg, ele, sub, rep] the Segment objects passed to     *)
+(*          Write() were parsed with (any; the verdict does not depend on them)   *)
+(*   isas   every ISA in the output text as observed: [et, nel, e11, e16, ver]    *)
 (* Definition clauses (violations): output = WriterDef(hist), same, reread free  *)
-(* of everything but caller-supplied duplicate control numbers, isa_ok, no       *)
+(* of everything but caller-supplied duplicate control numbers, every ISA        *)
+(* carries the writer's own delimiters (Writer!IsaFault, judged before the        *)
+(* re-read because a wrong ISA is the cause of what the reader then reports), no  *)
 (* exception.  Implementation-shaped clause (drift): each step's appended        *)
 (* segments = what WWrite appends.                                               *)
 EXTENDS Naturals, Sequences, FiniteSets, TLC, Json, IOUtils, Writer
@@ -19,13 +24,20 @@ DupCodes == {<<"isa","025">>, <<"gs","6">>, <<"st","23">>}
 Norm(s) == [k |-> s.k, id |-> s.id, cnt |-> s.cnt]          \* what identifies an envelope segment in the stream
 NormSeq(q) == [i \in 1..Len(q) |-> IF q[i].k \in {"ISA","GS","ST","SE","GE","IEA"} THEN Norm(q[i]) ELSE [k |-> q[i].k, id |-> "", cnt |-> ""]]
 
+FaultRank(f) == CASE f = "isa16" -> 1 [] f = "isa11" -> 2 [] OTHER -> 3
+IsaClause(tr) ==                                              \* "" or isa_delims:<field>:<ISA12 of the faulty ISA>
+  LET F == {i \in 1..Len(tr.isas) : IsaFault(tr.w, tr.isas[i]) # ""}
+      Key(i) == FaultRank(IsaFault(tr.w, tr.isas[i])) * 100000 + i
+  IN IF F = {} THEN ""
+     ELSE LET i == CHOOSE x \in F : \A y \in F : Key(x) <= Key(y)
+          IN "isa_delims:" \o IsaFault(tr.w, tr.isas[i]) \o ":" \o tr.isas[i].ver
 FinalClause(tr) ==
   IF tr.exc # "" THEN "crash"
-  ELSE IF ~WellNested(tr.hist) THEN ""                        \* the property makes no claim
+  ELSE IF ~WellNested(tr.hist) \/ ~SettingOk(tr.w) \/ ~SourceOk(tr.src) THEN ""     \* the property makes no claim
   ELSE IF NormSeq(tr.final) # NormSeq(WriterDef(tr.hist)) THEN "output"
   ELSE IF ~tr.same THEN "content"
+  ELSE IF IsaClause(tr) # "" THEN IsaClause(tr)
   ELSE IF ~({tr.reread[i] : i \in 1..Len(tr.reread)} \subseteq DupCodes) THEN "reread"
-  ELSE IF ~tr.isa_ok THEN "isa_delims"
   ELSE ""
 
 Init == ti = 1 /\ k = 1 /\ st = EnvInit /\ out = <<>> /\ rej = {} /\ drift = {}
@@ -34,7 +46,7 @@ Step ==
   /\ LET tr == Traces[ti] IN
      IF k > Len(tr.steps) \/ tr.exc # "" THEN
         LET c == FinalClause(tr) IN
-        /\ rej' = IF c = "" THEN rej ELSE rej \cup {<<tr.id, c>>}
+        /\ rej' = IF c = "" THEN rej ELSE rej \cup {<<tr.id, c, Coincide(tr.w, tr.src)>>}
         /\ ti' = ti + 1 /\ k' = 1 /\ st' = EnvInit /\ out' = <<>> /\ UNCHANGED drift
      ELSE
         LET r == WWrite(st, out, tr.hist[k])
